@@ -48,15 +48,16 @@ type tierCfg struct {
 	preemptPairs  int
 	preemptCap    int
 	burstSeconds  float64
+	burstMin      int
 	burstProcs    int
 	hardCap       time.Duration
 }
 
 var tiers = map[string]tierCfg{
 	"quick": {name: "quick", corrupt: 300, churn: 1200, serialSeconds: 20, serialProcs: 16, selfRuns: 200, pairsM: 64, preemptPairs: 96, preemptCap: 300,
-		burstSeconds: 12, burstProcs: 6, hardCap: 15 * time.Minute},
+		burstSeconds: 12, burstMin: 1500, burstProcs: 6, hardCap: 15 * time.Minute},
 	"thorough": {name: "thorough", corrupt: 1500, churn: 6000, serialSeconds: 720, serialProcs: 16, selfRuns: 5000, pairsM: 420, preemptPairs: 3000, preemptCap: 2000,
-		burstSeconds: 240, burstProcs: 6, hardCap: 90 * time.Minute},
+		burstSeconds: 240, burstMin: 30000, burstProcs: 6, hardCap: 90 * time.Minute},
 }
 
 var (
@@ -73,7 +74,11 @@ func cleanup() {
 	}
 	cleanups = nil
 	if scratch != "" {
-		os.RemoveAll(scratch)
+		if os.Getenv("VERIF_KEEP_SCRATCH") != "" {
+			fmt.Println("scratch kept (VERIF_KEEP_SCRATCH):", scratch)
+		} else {
+			os.RemoveAll(scratch)
+		}
 		scratch = ""
 	}
 }
@@ -743,12 +748,19 @@ func doCheck(cfg tierCfg) int {
 			from := int64(0)
 			for restarts := 0; restarts < 6; restarts++ {
 				left := time.Until(burstDeadline).Seconds()
+				minLeft := int64(cfg.burstMin) - (from-int64(i))/int64(cfg.burstProcs)
+				if minLeft < 0 {
+					minLeft = 0
+				}
 				if left < 1 {
-					return
+					if minLeft == 0 {
+						return
+					}
+					left = 1
 				}
 				out := filepath.Join(scratch, fmt.Sprintf("burst-%d-%d.json", i, restarts))
-				p := &proc{name: fmt.Sprintf("burst-%d", i), bin: b.raceBin, outFile: out, timeout: time.Duration(left*2+120) * time.Second,
-					args: append([]string{"-mode", "burst", "-w", fmt.Sprint(i), "-of", fmt.Sprint(cfg.burstProcs), "-from", fmt.Sprint(from), "-seconds", fmt.Sprint(left), "-refs", table, "-out", out},
+				p := &proc{name: fmt.Sprintf("burst-%d", i), bin: b.raceBin, outFile: out, timeout: time.Duration(left*8+120) * time.Second,
+					args: append([]string{"-mode", "burst", "-w", fmt.Sprint(i), "-of", fmt.Sprint(cfg.burstProcs), "-from", fmt.Sprint(from), "-seconds", fmt.Sprint(left), "-minruns", fmt.Sprint(minLeft), "-refs", table, "-out", out},
 						"-root", b.rootRace, "-seed", fmt.Sprint(seed), "-corrupt", fmt.Sprint(cfg.corrupt), "-churn", fmt.Sprint(cfg.churn)),
 					env: []string{"GOMAXPROCS=" + bgmp[i%len(bgmp)], "GORACE=halt_on_error=1 exitcode=66 history_size=4", "GOMEMLIMIT=6GiB"}}
 				p.run()
@@ -772,8 +784,8 @@ func doCheck(cfg tierCfg) int {
 				rr := classifyCrash(p, last, i, cfg.burstProcs)
 				raceReports = append(raceReports, rr)
 				bmu.Unlock()
-				if rr.kind == "trouble" || last < 0 {
-					return
+				if rr.kind == "trouble" || last < 0 || p.exit == 67 {
+					return // (one hang is enough: every further burst of this worker would wait 20 s again)
 				}
 				from = last - int64(i) + int64(cfg.burstProcs) // continue after the burst that crashed
 			}
@@ -869,11 +881,12 @@ func doCheck(cfg tierCfg) int {
 				if g, err := strconv.Atoi(rr.gomaxprocs); err == nil {
 					m["gomaxprocs"] = g
 				}
-				m["expect"] = failure{Oracle: "O5", Key: rr.identity, Detail: rr.kind}
+				m["expect"] = failure{Oracle: strings.SplitN(rr.identity, "|", 2)[0], Key: rr.identity, Detail: rr.kind}
+				m["seeded_prefix"] = map[string]any{"seed": seed, "first": rr.worker, "stride": cfg.burstProcs, "last": rr.burst, "corrupt": cfg.corrupt, "churn": cfg.churn}
 				raw, _ = json.MarshalIndent(m, "", " ")
 			}
 		}
-		addViolation(rr.identity, fmt.Sprintf("oracle O5 (%s): %s", rr.kind, firstLines(rr.text, 3)), raw, fmt.Sprintf("burst-%d-%d", rr.burst, i))
+		addViolation(rr.identity, fmt.Sprintf("oracle %s (%s): %s", strings.SplitN(rr.identity, "|", 2)[0], rr.kind, firstLines(rr.text, 3)), raw, fmt.Sprintf("burst-%d-%d", rr.burst, i))
 	}
 
 	// -- evidence -------------------------------------------------------------------------------------------------------
@@ -966,7 +979,7 @@ func doCheck(cfg tierCfg) int {
 	// process): when reproducing replay files exist, only those are printed
 	anyConfirmed := false
 	for _, v := range viols {
-		if v.known == nil && (v.confirmed || strings.HasPrefix(v.identity, "O5|")) {
+		if v.known == nil && (v.confirmed || strings.HasPrefix(v.identity, "O5|") || strings.HasPrefix(v.identity, "O6|burst")) {
 			anyConfirmed = true
 		}
 	}
@@ -975,7 +988,7 @@ func doCheck(cfg tierCfg) int {
 		if v.known != nil {
 			continue
 		}
-		if anyConfirmed && !v.confirmed && !strings.HasPrefix(v.identity, "O5|") {
+		if anyConfirmed && !v.confirmed && !strings.HasPrefix(v.identity, "O5|") && !strings.HasPrefix(v.identity, "O6|burst") {
 			os.Remove(v.replay)
 			continue
 		}
@@ -1116,6 +1129,7 @@ type raceReport struct {
 	identity    string
 	harnessOnly bool
 	burst       int64
+	worker      int
 	gomaxprocs  string
 }
 
@@ -1135,7 +1149,7 @@ var funcRe = regexp.MustCompile(`(?m)^\s*(github\.com/cloudspannerecosystem/meme
 
 func classifyCrash(p *proc, last int64, w, of int) raceReport {
 	text := p.stderr.String()
-	rr := raceReport{burst: last}
+	rr := raceReport{burst: last, worker: w}
 	for _, e := range p.env {
 		if strings.HasPrefix(e, "GOMAXPROCS=") {
 			rr.gomaxprocs = strings.TrimPrefix(e, "GOMAXPROCS=")
@@ -1143,7 +1157,25 @@ func classifyCrash(p *proc, last int64, w, of int) raceReport {
 	}
 	i := strings.Index(text, "WARNING: DATA RACE")
 	j := strings.Index(text, "fatal error:")
+	h := strings.Index(text, "BURST-HANG")
 	switch {
+	case h >= 0 && p.exit == 67:
+		// a burst that never finished: tasks blocked under library frames = deadlock of the
+		// library's own locking under real threads
+		rr.kind = "hang (deadlock or livelock of concurrent calls on real threads)"
+		rr.text = text[h:]
+		blocked := 0
+		for _, g := range strings.Split(rr.text, "\n\n") {
+			if strings.Contains(g, "main.execBurst.func") && frameRe.MatchString(g) &&
+				(strings.Contains(g, "[sync.") || strings.Contains(g, "[semacquire") || strings.Contains(g, "[chan ") || strings.Contains(g, "[select")) {
+				blocked++
+			}
+		}
+		if blocked == 0 {
+			rr.kind = "trouble"
+			rr.text = fmt.Sprintf("%s: burst did not finish but no task is blocked under library frames: %s", p.name, tail(text, 1500))
+			return rr
+		}
 	case i >= 0:
 		rr.kind = "data race"
 		rr.text = text[i:]
@@ -1178,6 +1210,9 @@ func classifyCrash(p *proc, last int64, w, of int) raceReport {
 		frames = frames[:2]
 	}
 	rr.identity = "O5|" + rr.kind + "|" + strings.Join(frames, "|")
+	if p.exit == 67 {
+		rr.identity = "O6|burst-hang|" + strings.Join(frames, "|")
+	}
 	return rr
 }
 
@@ -1213,7 +1248,11 @@ func doReplay(file string) int {
 		}
 		env = []string{"GOMAXPROCS=" + g, "GORACE=halt_on_error=1 exitcode=66 history_size=4"}
 	}
-	cmd := exec.Command(bin, "-mode", "replay", "-file", abs)
+	root := b.rootSerial
+	if burst {
+		root = b.rootRace
+	}
+	cmd := exec.Command(bin, "-mode", "replay", "-file", abs, "-root", root)
 	cmd.Env = append(goEnv(), env...)
 	var out bytes.Buffer
 	cmd.Stdout = io.MultiWriter(os.Stdout, &out)
@@ -1230,6 +1269,9 @@ func doReplay(file string) int {
 		return 1
 	case 66:
 		fmt.Printf("REPRODUCED oracle=O5 (race detector)\nVIOLATION property=C18 replay=%s\n", abs)
+		return 1
+	case 67:
+		fmt.Printf("REPRODUCED oracle=O6 (burst did not finish: tasks blocked under library frames)\nVIOLATION property=C18 replay=%s\n", abs)
 		return 1
 	}
 	if strings.Contains(out.String(), "fatal error:") {
